@@ -5,7 +5,7 @@ Import ListNotations.
 Local Open Scope Z_scope.
 
 (* one op: kind, path, sub type, sub bytes, impl err, impl exist, impl result bytes, flags *)
-Definition step_401 (idx : Z) (t : Z) (v : tval) (kind : Z) (p : list pstep) (st : Z) (sb : list Z)
+Definition step_401_core (idx : Z) (t : Z) (v : tval) (kind : Z) (p : list pstep) (st : Z) (sb : list Z)
                     (err ex : Z) (res : list Z) (flags : Z) : verdict * option tval :=
   let prev := encode v in
   let typed := (kind =? 3) || (kind =? 4) in
@@ -19,13 +19,14 @@ Definition step_401 (idx : Z) (t : Z) (v : tval) (kind : Z) (p : list pstep) (st
     match decode_all st sb with
     | None => (VSkip, None)
     | Some x =>
+      (* the next model state is always ast_step (the function the history theorems of Properties_C04 are about) *)
       match ast_set true p x v with
-      | None => (expect (100 + idx) ((err =? 1) && bytes_eqb res prev) [FZ 1; FB prev], Some v)
+      | None => (expect (100 + idx) ((err =? 1) && bytes_eqb res prev) [FZ 1; FB prev], Some (ast_step true v (OSet p x)))
       | Some (v', e) =>
-        if (err =? 0) && (ex =? Z.b2z e) && bytes_eqb res (encode v') then (VOk, Some v')
+        if (err =? 0) && (ex =? Z.b2z e) && bytes_eqb res (encode v') then (VOk, Some (ast_step true v (OSet p x)))
         else match ast_set false p x v with
              | Some (v2, e2) =>
-               if (err =? 0) && (ex =? Z.b2z e2) && bytes_eqb res (encode v2) then (VDrift 1, Some v2)
+               if (err =? 0) && (ex =? Z.b2z e2) && bytes_eqb res (encode v2) then (VDrift 1, Some (ast_step false v (OSet p x)))
                else (VBad (200 + idx) [FZ 0; FZ (Z.b2z e); FB (encode v')], None)
              | None => (VBad (200 + idx) [FZ 0; FZ (Z.b2z e); FB (encode v')], None)
              end
@@ -34,11 +35,64 @@ Definition step_401 (idx : Z) (t : Z) (v : tval) (kind : Z) (p : list pstep) (st
   else if (kind =? 2) || (kind =? 4) then
     match ast_unset p v with
     | DErr => (* a path that addresses nothing: the value must stay unchanged (error or not) *)
-              (expect (300 + idx) (((err =? 1) || (err =? 0)) && bytes_eqb res prev) [FZ 1; FB prev], Some v)
+              (expect (300 + idx) (((err =? 1) || (err =? 0)) && bytes_eqb res prev) [FZ 1; FB prev], Some (ast_step true v (OUnset p)))
     | DOk v' removed =>
-      (expect (400 + idx) (bytes_eqb res (encode v') && (if removed then err =? 0 else true)) [FZ 0; FB (encode v')], Some v')
+      (expect (400 + idx) (bytes_eqb res (encode v') && (if removed then err =? 0 else true)) [FZ 0; FB (encode v')], Some (ast_step true v (OUnset p)))
     end
   else (VBad 98 [], None).
+
+(* known deviation 405: deleteChild does not reject a negative list/set index. The size is patched to size-1 in place
+   first; then for fixed-size elements the [d] bytes at (start of elements + d*index) are cut out (for index -1 these are
+   bytes of the size field itself), for variable-size elements element 0 is cut out; on an empty list of variable-size
+   elements the skip fails AFTER the size was patched to -1. Byte-level model of exactly that: *)
+Definition zfirstn (n : Z) (l : list Z) : list Z := firstn (Z.to_nat n) l.
+Definition zskipn (n : Z) (l : list Z) : list Z := skipn (Z.to_nat n) l.
+Definition quirk_405 (prev : list Z) (off : Z) (c : tval) (i : Z) : option (Z * list Z) :=
+  let go (et : Z) (es : list tval) :=
+    let n := zlen es in let d := fixed_size et in
+    let patched := zfirstn (off + 1) prev ++ enc_int 4 (n - 1) ++ zskipn (off + 5) prev in
+    if d >? 0 then
+      let s := off + 5 + d * i in
+      if s <? 0 then None else Some (0, zfirstn s patched ++ zskipn (s + d) patched)
+    else match es with
+         | x :: _ => Some (0, zfirstn (off + 5) patched ++ zskipn (off + 5 + zlen (encode x)) patched)
+         | [] => Some (1, patched)
+         end in
+  match c with
+  | VList et es => go et es
+  | VSet et es => go et es
+  | _ => None
+  end.
+
+Definition is_405 (v : tval) (p : list pstep) (err : Z) (res : list Z) : bool :=
+  match rev p with
+  | PIndex i :: rpre =>
+    if i <? 0 then
+      match lookup v 0 (rev rpre) with
+      | LFound c off =>
+        match quirk_405 (encode v) off c i with
+        | Some (e, bs) => (err =? e) && bytes_eqb res bs
+        | None => false
+        end
+      | _ => false
+      end
+    else false
+  | _ => false
+  end.
+
+(* known deviation 404 (consequence of finding 106, GetDescByPath never descends): a typed edit whose LAST step is a field
+   NAME below depth 2 that has to consult GetDescByPath (every unset; a set of an absent field) fails — error or nil-dereference
+   panic — and leaves the value unchanged, where the model performs the edit *)
+Definition step_401 (idx : Z) (t : Z) (v : tval) (kind : Z) (p : list pstep) (st : Z) (sb : list Z)
+                    (err ex : Z) (res : list Z) (flags : Z) : verdict * option tval :=
+  match step_401_core idx t v kind p st sb err ex res flags with
+  | (VBad c d, o) =>
+    let consulted := (kind =? 4) || ((kind =? 3) && match lookup v 0 p with LFound _ _ => false | _ => true end) in
+    if Z.testbit flags 2 && consulted && ((err =? 1) || (err =? 3)) && bytes_eqb res (encode v) then (VKnown 404, None)
+    else if ((kind =? 2) || (kind =? 4)) && is_405 v p err res then (VKnown 405, None)
+    else (VBad c d, o)
+  | r => r
+  end.
 
 Fixpoint run_401 (n : nat) (idx : Z) (t : Z) (v : tval) (fs : list field) : verdict :=
   match n with
